@@ -111,6 +111,9 @@ def euler_points(r, sel, b1950, n_uniform):
             pts.append(((ta, td), "target-pole"))
             pts.append((clamp_pt(ta + small(r), td + small(r)), "near-target-pole"))
     pts.append(((r.choice([0.0, 360.0]), r.uniform(-90, 90)), "lon-0-360"))
+    # exact special values of both coordinates (where a shortcut for "on the equator" / "on the meridian" would sit)
+    pts.append(((r.choice([0.0, 90.0, 180.0, 270.0, 360.0]), r.choice([0.0, -0.0, 45.0, -45.0, 90.0, -90.0])), "exact-grid"))
+    pts.append(((r.uniform(0, 360), 0.0), "exact-grid"))
     return pts
 
 
@@ -212,6 +215,11 @@ class Shift(Entry):
                 for wrap in (True, False):
                     add([181.0], sh, wrap, "zero-shift", form="scalar")
                     add([0.0, 10.0, 179.0, 180.0, 181.0, 270.0, 359.5], sh, wrap, "zero-shift", form="array")
+            for sh in (90, -90, 180.0, -180.0, 360, -360.0, 720.0, 270.0, -270):
+                add([0.0, 90.0, 180.0, 270.0, 359.5, 45.25], sh, r.random() < 0.5, "special-shift", form="array")
+            for lon in (0.0, 90.0, 180.0, 270.0, 45.25):
+                add([lon], lon, True, "special-shift:shift=lon", form="scalar")
+                add([lon], -(360.0 - lon), False, "special-shift:shift=lon-360", form="scalar")
             add([200.0, 359.0], 0.0, True, "zero-shift", form="array", shift_type="np.float64")
             add([200.0, 359.0], 0, True, "zero-shift", form="array", shift_type="np.int64")
             add([200.0, 359.0], 0.0, True, "zero-shift", form="array", shift_type="0d")
@@ -405,7 +413,8 @@ def call_conv(c, pts, scalar):
         if fn == "rotate":
             ang = [c["phi"], c["theta"], c["psi"]]
             if c.get("angle_type") == "int":
-                ang = [int(v) for v in ang]
+                # integer spelling only of integer-valued angles (-0.0 stays a float: its sign is part of the case)
+                ang = [int(v) if float(v).is_integer() and not (v == 0 and math.copysign(1.0, v) < 0) else v for v in ang]
             elif c.get("angle_type") == "np.float64":
                 ang = [np.float64(v) for v in ang]
             return quiet(co.rotate, ang[0], ang[1], ang[2], a, d)
@@ -417,8 +426,11 @@ def call_conv(c, pts, scalar):
             res.append(tuple(float(np.asarray(v, dtype="f8").ravel()[0]) for v in o))
         return res
     form = c.get("form")
-    a = as_form([p[0] for p in pts], form)
-    d = as_form([p[1] for p in pts], form)
+    if c.get("_arrays") is not None:
+        a, d = c["_arrays"]
+    else:
+        a = as_form([p[0] for p in pts], form)
+        d = as_form([p[1] for p in pts], form)
     ka, kd = snapshot(a), snapshot(d)
     o = one(a, d, form)
     if not (unchanged(a, ka) and unchanged(d, kd)):
@@ -488,7 +500,7 @@ class Forms(Entry):
             for fn, _ in sel_fns:
                 c = {"form": form, "family": "form:" + form, "kw": r.choice(["omit", "explicit", None])}
                 if c["kw"] == "explicit" and fn in ("euler", "wrapper"):
-                    c["dtype"] = r.choice(["f8", "float64", "<f8", "np.float64", "d"])     # spellings of binary64
+                    c["dtype"] = r.choice(["f8", "float64", "<f8", "np.float64", "d", ">f8"])     # spellings of binary64 (and big-endian)
                 lo1, hi1, lo2, hi2 = 0.0, 360.0, -90.0, 90.0
                 if fn in ("euler", "wrapper"):
                     sel = r.randrange(1, 7)
@@ -569,6 +581,74 @@ class Forms(Entry):
         return "C09.ranges:%s%s" % (c["fn"], (":" + c["form"]) if c.get("form") else "")
 
 
+class Reuse(Entry):
+    """several calls in ONE process arranged so that a cache keyed too coarsely would collide: the same array objects
+    passed again after their contents were changed in place, other arrays of the same length, dtype, first and last
+    elements, equal contents in new objects -- every call must give what the scalar calls of its own values give"""
+    name = "reuse"
+
+    def cases(self, ctx, round=0):
+        r = ctx.rng
+        cs = []
+        fns = ["euler", "wrapper", "eq2sdss", "sdss2eq", "eq2xyz", "xyz2eq", "rotate"]
+        for fn in (fns if not ctx.quick() or round else fns):
+            c = {"family": "reuse:" + fn}
+            lo1, hi1, lo2, hi2 = 0.0, 360.0, -90.0, 90.0
+            if fn in ("euler", "wrapper"):
+                sel = r.randrange(1, 7)
+                c.update({"fn": "euler" if fn == "euler" else WRAPPER[sel], "sel": sel, "b1950": r.random() < 0.5})
+            elif fn == "sdss2eq":
+                c["fn"] = fn
+                lo1, hi1, lo2, hi2 = -90.0, 90.0, -180.0, 180.0
+            elif fn in ("eq2xyz", "xyz2eq"):
+                c.update({"fn": fn, "units": r.choice(["deg", "rad"]), "stomp": r.random() < 0.5})
+                if c["units"] == "rad":
+                    lo1, hi1, lo2, hi2 = 0.0, 6.25, -1.5, 1.5
+            elif fn == "rotate":
+                ang = [r.choice([0.0, r.uniform(-180, 180)]) for _ in range(3)]
+                c.update({"fn": fn, "phi": ang[0], "theta": ang[1], "psi": ang[2]})
+            else:
+                c["fn"] = fn
+            n = r.choice([3, 5, 8])
+            first = pts_for_form(r, "f8", n, lo2, hi2, lo1, hi1)
+            second = pts_for_form(r, "f8", n, lo2, hi2, lo1, hi1)
+            second[0], second[-1] = first[0], first[-1]          # same length, same first and last elements
+            c["pts"], c["pts2"] = first, second
+            cs.append(c)
+        return cs
+
+    def impl(self, c):
+        import numpy as np
+
+        def f():
+            p1 = [tuple(p) for p in c["pts"]]
+            p2 = [tuple(p) for p in c["pts2"]]
+            co = dict(c, form=None)
+
+            def arr_call(a, d):
+                # call_conv's array path on given array OBJECTS
+                return call_conv(dict(co, _arrays=(a, d)), p1, False)
+            a = np.array([p[0] for p in p1], dtype="f8")
+            d = np.array([p[1] for p in p1], dtype="f8")
+            o1 = arr_call(a, d)
+            a[:] = [p[0] for p in p2]                           # same objects, contents changed in place
+            d[:] = [p[1] for p in p2]
+            o2 = arr_call(a, d)
+            o3 = arr_call(np.array([p[0] for p in p1], dtype="f8"), np.array([p[1] for p in p1], dtype="f8"))   # new objects, first contents
+            o4 = arr_call(a, d)                                  # same objects again, unchanged
+            s1 = call_conv(co, p1, True)
+            s2 = call_conv(co, p2, True)
+            j = lambda l: [[jf(x) for x in t] for t in l]
+            return {"arr": j(o1) + j(o2) + j(o3) + j(o4), "sca": j(s1) + j(s2) + j(s1) + j(s2)}
+        return core.guarded(f)
+
+    def term(self, c, out):
+        return Forms.term(self, c, out)
+
+    def classify(self, c, out, v):
+        return "C09.reuse:%s" % c["fn"]
+
+
 _FRESH_SCRIPT = ("import sys, json; sys.path.insert(0, %r); from harness.props import C09 as H; ops = json.load(sys.stdin); out = []; prev = None\n"
                  "for o in ops:\n"
                  "    pt = prev if o['pt'] == 'prev' else tuple(o['pt'])\n"
@@ -620,7 +700,20 @@ class History(Entry):
         if not ctx.quick():
             cs.append({"ops": [ecall(2, False), ecall(6, False), ecall(2, False, True)], "family": "selector-mix"})
         ang = [r.uniform(-180, 180) for _ in range(3)]
-        cs.append({"ops": [rcall(ang), rcall([ang[0], -ang[1], ang[2]]), rcall([ang[2], ang[1], ang[0]])], "family": "rotate-angles"})
+        cs.append({"ops": [rcall(ang), rcall([ang[0], -ang[1], ang[2]]), rcall([ang[2], ang[1], ang[0]]), rcall([ang[0], 0.0, ang[2]]),
+                           rcall([ang[0], ang[1], ang[2]])], "family": "rotate-angles"})
+
+        def ocall(fn, **kw):
+            pt = sphere_pt(r)
+            if fn == "sdss2eq":
+                pt = (pt[1], pt[0] - 180.0)
+            if kw.get("units") == "rad":
+                pt = (math.radians(pt[0]), math.radians(pt[1]))
+            return {"conv": dict({"fn": fn}, **kw), "pt": list(pt)}
+        # unit vectors and survey coordinates: option values changing between calls of one process
+        cs.append({"ops": [ocall("xyz2eq", units="deg", stomp=True), ocall("xyz2eq", units="rad", stomp=False), ocall("xyz2eq", units="deg", stomp=False),
+                           ocall("xyz2eq", units="rad", stomp=True)], "family": "units-stomp-mix"})
+        cs.append({"ops": [ocall("eq2sdss"), ocall("sdss2eq"), ocall("eq2sdss"), ocall("sdss2eq")], "family": "sdss-mix"})
         return cs
 
     def impl(self, c):
@@ -633,8 +726,13 @@ class History(Entry):
     def term(self, c, out):
         if out[0] != "ok":
             return "3%Z"
-        return "verdict true (forms_ok lonlat_ok [%s] [%s])" % ("; ".join(oqpair(t) for t in out[1]["seq"]),
-                                                                 "; ".join(oqpair(t) for t in out[1]["alone"]))
+        # per call: output of the sequence identical to the output of the call alone in a new process, and in range
+        ts = []
+        for o, a, b in zip(c["ops"], out[1]["seq"], out[1]["alone"]):
+            fn = o["conv"]["fn"]
+            chk = "sdss_ok" if fn == "eq2sdss" else ("lonlat_rad_ok" if fn == "xyz2eq" and o["conv"].get("units") == "rad" else "lonlat_ok")
+            ts.append("forms_ok %s [%s] [%s]" % (chk, oqpair(a), oqpair(b)))
+        return "verdict true (forallb (fun b : bool => b) [%s])" % "; ".join(ts)
 
     def classify(self, c, out, v):
         return "C09.history:%s" % c.get("family")
@@ -724,8 +822,8 @@ def conv_of(it):
         bwd = {"fn": WRAPPER[INV[it["sel"]]], "sel": INV[it["sel"]], "b1950": it["b1950"]}
         return fwd, bwd
     if k in ("rotate", "rotate_pair"):
-        fwd = {"fn": "rotate", "phi": it["phi"], "theta": it["theta"], "psi": it["psi"]}
-        bwd = {"fn": "rotate", "phi": it["psi"], "theta": -it["theta"], "psi": it["phi"]}
+        fwd = {"fn": "rotate", "phi": it["phi"], "theta": it["theta"], "psi": it["psi"], "angle_type": it.get("angle_type")}
+        bwd = {"fn": "rotate", "phi": it["psi"], "theta": -it["theta"], "psi": it["phi"], "angle_type": it.get("angle_type")}
         return fwd, bwd
     if k in ("sdss", "sdss_pair"):
         return {"fn": "eq2sdss"}, {"fn": "sdss2eq"}
@@ -859,8 +957,11 @@ def cert_items(ctx):
             pts = euler_points(r, sel, b, scale)
             if ctx.quick():
                 # one uniform point and one special point per row; the special families rotate over the 12 rows
-                spec = [x for x in pts if x[1] != "uniform"]
-                keep = [x for x in pts if x[1] == "uniform"][:1] + [spec[(sel + (6 if b else 0)) % len(spec)]]
+                spec = [x for x in pts if x[1] not in ("uniform", "exact-grid")]
+                grid = [x for x in pts if x[1] == "exact-grid"]
+                # one uniform point per row plus, alternating over the 12 rows, a pole-family point or an exact-grid point
+                keep = [x for x in pts if x[1] == "uniform"][:1] + \
+                    ([spec[(sel + (6 if b else 0)) % len(spec)]] if (sel + b) % 2 == 0 else [grid[sel % 2]])
             else:
                 keep = pts
             for p, fam in keep:
@@ -919,9 +1020,32 @@ def cert_items(ctx):
             sel = r.randrange(1, 7)
             items.append({"kind": "euler", "sel": sel, "b1950": r.random() < 0.5, "pt": list(p), "form": form, "family": "dtype:" + form,
                           "via": r.choice(["euler", WRAPPER[sel]])})
+    # rotate: every Euler angle at exact special values (0, -0.0, +-90, +-180, 360, equal angles) while the others are not
+    # zero -- shortcuts for "no tilt", "quarter turn", "same angle" are where a second, unmodelled formula would hide
+    spec = [0.0, -0.0, 90.0, -90.0, 180.0, -180.0, 360.0]
+    triples = []
+    for pos in range(3):
+        for v in spec:
+            t = [r.choice([-1, 1]) * r.uniform(5.0, 175.0) for _ in range(3)]
+            t[pos] = v
+            triples.append((t, "special:%s=%g" % (("phi", "theta", "psi")[pos], v)))
+    for v in (0.0, 90.0, 180.0):
+        w = r.choice([-1, 1]) * r.uniform(5.0, 175.0)
+        triples += [([v, w, v], "special:phi=psi=%g" % v), ([v, v, w], "special:phi=theta=%g" % v), ([w, v, v], "special:theta=psi=%g" % v)]
+    e = r.uniform(5.0, 175.0)
+    triples += [([e, e, e], "special:all-equal"), ([e, -e, e], "special:phi=psi=-theta"), ([0.0, 0.0, 0.0], "special:all-zero"),
+                ([e, 0.0, -e], "special:theta=0,psi=-phi"), ([e, 0.0, e], "special:theta=0,psi=phi")]
+    if ctx.quick():
+        # theta = 0 with non-zero phi and psi always; the rest rotates with the seed
+        must = [t for t in triples if t[1] in ("special:theta=0", "special:phi=0", "special:psi=0", "special:theta=0,psi=phi")]
+        rest = [t for t in triples if t not in must]
+        triples = must + r.sample(rest, 3)
+    for ang, fam in triples:
+        items.append({"kind": "rotate", "phi": ang[0], "theta": ang[1], "psi": ang[2], "pt": list(sphere_pt(r)), "family": "rotate:" + fam,
+                      "scalar": r.random() < 0.5, "angle_type": r.choice(["py", "py", "np.float64", "int"])})
     # rotate: random and special Euler angles
     co = _coords()
-    for _ in range(ctx.n(3, 4 * scale)):
+    for _ in range(ctx.n(2, 4 * scale)):
         ang = [r.choice([r.uniform(-360, 360), r.uniform(-360, 360), float(r.randrange(-4, 5) * 90), 0.0]) for _ in range(3)]
         pts = [(sphere_pt(r), "uniform"), ((r.uniform(0, 360), r.choice([90.0, -90.0])), "source-pole")]
         for s in (90.0, -90.0):
@@ -1086,7 +1210,7 @@ def run(ctx, replay=None):
         ok, log = core.coq_make(["theories/C09/Exec.vo"])
         if not ok:
             return
-    entries = [Shift(), Forms(), History(), SdssReject()]
+    entries = [Shift(), Forms(), Reuse(), History(), SdssReject()]
     if replay is not None and replay.get("entry") == "cert":
         certify(ctx, [dict(replay["case"])], "replay")
         return
